@@ -172,7 +172,7 @@ func runCase(ctx context.Context, rt wazero.Runtime, c tcase) (res result) {
 	res.Results = []callRes{}
 	defer func() {
 		if r := recover(); r != nil {
-			s := fmt.Sprintf("%v\n%s", r, firstLines(string(debug.Stack()), 40))
+			s := clip(fmt.Sprintf("%v\n%s", r, firstLines(string(debug.Stack()), 40)))
 			res.Panic = &s
 		}
 	}()
@@ -260,9 +260,10 @@ func runCase(ctx context.Context, rt wazero.Runtime, c tcase) (res result) {
 
 func clip(s string) string {
 	if len(s) > 400 {
-		return s[:400]
+		s = s[:400]
 	}
-	return s
+	q := strconv.QuoteToASCII(s) // keep the output line pure ASCII (no raw line separators)
+	return q[1 : len(q)-1]
 }
 
 func firstLines(s string, n int) string {
